@@ -30,6 +30,8 @@ def run(ctx):
     stems_variants(ctx, "R3")
     get_hostname(ctx, "R4")
     U.netloc_template(ctx, "R5")
+    from .c20 import branch_templates
+    branch_templates(ctx, "R6")
 
 
 def host_helpers(ctx, rule, n):
